@@ -385,6 +385,13 @@ class MirFile:
                 end = m.end() + 1
             if name not in self.spans:
                 self.spans[name] = (m.start(), end, kind); self.order.append(name)
+            elif (kind == 'fn' or 'promoted[' in name) and text[m.start():end] != text[self.spans[name][0]:self.spans[name][1]]:
+                # bodies of macro-generated impls share one `<impl at ..>` name: keep every distinct body under name@@k (file order preserved)
+                k = 1
+                while '%s@@%d' % (name, k) in self.spans: k += 1
+                key = '%s@@%d' % (name, k)
+                if not any(text[m.start():end] == text[self.spans[x][0]:self.spans[x][1]] for x in [name] + ['%s@@%d' % (name, j) for j in range(1, k)]):
+                    self.spans[key] = (m.start(), end, kind); self.order.append(key)
         self.parsed = {}
 
     def names(self): return self.order
